@@ -253,7 +253,7 @@ type Run struct {
 	Workers  int
 }
 
-func (r *Run) quick() bool { return r.Tier == "quick" }
+func (r *Run) quick() bool { return r == nil || r.Tier == "quick" }
 
 func (r *Run) expired() bool { return time.Now().After(r.Deadline) }
 
